@@ -588,8 +588,8 @@ class DavSession:
                 seen.add(n)
                 et = x.text(DAV + "getetag")
                 data = x.text(datatag)
-                wanted = (kind == "calendar" and n.endswith(".ics")) or \
-                         (kind == "addressbook" and n.endswith(".vcf"))
+                wanted = (kind == "calendar" and n.lower().endswith(".ics")) or \
+                         (kind == "addressbook" and n.lower().endswith(".vcf"))
                 if et is not None or which == "mg" or wanted:
                     members[n]["views"].append(self.E(et) if et else 0)
                 if data is not None:
@@ -599,8 +599,8 @@ class DavSession:
                     members[n]["dviews"].append(0)
         for n, m in members.items():
             if n not in seen and m.get("st") == 200:
-                wanted = (kind == "calendar" and n.endswith(".ics")) or \
-                         (kind == "addressbook" and n.endswith(".vcf"))
+                wanted = (kind == "calendar" and n.lower().endswith(".ics")) or \
+                         (kind == "addressbook" and n.lower().endswith(".vcf"))
                 if which == "mg" or wanted:
                     m["views"].append(0)    # a live member missing from the report
 
